@@ -429,3 +429,8 @@ package tss
 //@   skip frame
 //@   note the append may write into spare capacity of the old committee's id slice (beyond its length); not a functional effect
 //@   ensures len(result) == len(rgParams.Parameters.parties.partyIDs) + len(rgParams.newParties.partyIDs) && (forall k in 0..len(result) :: result[k] != nil)
+
+//@ func (*Parameters).SafePrimeGenTimeout
+//@   props C06
+//@   requires params != nil
+//@   ensures result == params.safePrimeGenTimeout
